@@ -34,7 +34,24 @@ as broken):
                the then-branch.
 Arithmetic is exact: Z operations on integers, Q operations otherwise (floats are
 exact dyadic rationals); `/` is always Q division, `//` is Z.div (Python floor
-division on integers = Coq Z.div)."""
+division on integers = Coq Z.div).
+
+Additions of the loop ties of C05 / C15 (each marked `[loop ties C15]` / `[loop ties C05]` / `[loop ties C15/C05]` where it is
+implemented; all additive, everything else is refused as before):
+  types      : OB (optional boolean: None / True / False), LQ (a 1-d float array / list of numbers as a value),
+               'F:<arg>,..,<kw>=<arg>><ret>' (a PURE callable called with exactly this argument pattern), 'S|<T>' (a str OR a T,
+               read through `if isinstance(x, str):`), EXC (not a value: whether the call guarded by a `try` raises what its
+               handler catches)
+  statements : `try: <one assignment from a call> except E: H [else: L]` (spec key `tries`); `if c: A else: raise` (guard
+               recorded); an `if` left with log lines only is dropped when its test has no effect; `if x is None:` /
+               `if x is not None:` on an OB name narrows it on the not-None side (the continuation is translated per side);
+               `d = {"k": v, ...}` (a dict display local that is only read: `k in d`, `d[k]`, `return d`); `d[key] = v` with a string
+               key is a store to that one entry (a variable named by the target's source text); `a, b = (x1, y1) if c else
+               (x2, y2)`; `opaque=` ranges also in whole functions / fragments; spec key `row_filter=<table>`: `return table` /
+               `return table[mask]` read per row as "the row is kept"
+  expressions: `+x`; `np.nan` as a value (the missing number); == / != and truthiness of OB; calls of function-typed
+               parameters; list displays of numbers and `lst.append(e)` on LQ; spec key `columns=[M, ..]`: 2-d arrays read as
+               one column -- `np.apply_along_axis(F, 0, M)`, `np.array([E for a, i in zip(M.T, v)])`"""
 import ast, os, sys, glob, importlib.util
 from fractions import Fraction
 
@@ -47,8 +64,41 @@ class Refuse(Exception):
     pass
 
 
-COQTY = {'Z': 'Z', 'Q': 'Q', 'B': 'bool', 'S': 'string', 'OQ': 'option Q', 'OZ': 'option Z', 'LS': 'list string',
-         'LZ': 'list Z'}         # [loop ties C06] LZ: a 1-d integer array / list of ints, as a value
+def fn_type(t):
+    """[loop ties C15/C05] a function-typed parameter 'F:<arg>,<arg>,<kw>=<arg>><ret>' (e.g. 'F:LQ>Q', 'F:LQ,initial=Q>Q'): a
+    PURE Python callable the code calls with exactly this argument pattern (positional arguments, then the named keyword
+    arguments); its value is a Gallina function of the argument types.  Returns ([(keyword or None, type)], result type)."""
+    body, ret = t[2:].rsplit('>', 1)
+    args = []
+    for a in body.split(','):
+        kw, _, ty = a.rpartition('=')
+        if not kw and any(k for k, _ in args):
+            raise Refuse('function type %s: a positional slot after a keyword slot' % t)
+        args.append((kw or None, ty))
+    return args, ret
+
+
+class _CoqTypes(dict):
+    def __missing__(self, t):
+        if isinstance(t, str) and t.startswith('F:'):
+            args, ret = fn_type(t)
+            return '(' + ' -> '.join([self[a] for _, a in args] + [self[ret]]) + ')'
+        if isinstance(t, str) and t.startswith('S|'):
+            # [loop ties C15] 'S|<T>': a parameter that is EITHER a str OR a value of type T (T not a string type): the sum
+            # string + T; read only through `if isinstance(x, str):`, which narrows it on both sides (see block())
+            return '(string + %s)%%type' % self[t[2:]]
+        raise KeyError(t)
+
+
+COQTY = _CoqTypes({'Z': 'Z', 'Q': 'Q', 'B': 'bool', 'S': 'string', 'OQ': 'option Q', 'OZ': 'option Z', 'LS': 'list string',
+         'LZ': 'list Z',         # [loop ties C06] LZ: a 1-d integer array / list of ints, as a value
+         'LQ': 'list Q',         # [loop ties C15/C05] LQ: a 1-d float array / Series / list of numbers, as a value (opaque: only
+                                 # passed on to function-typed parameters, see fn_type)
+         'OB': 'option bool',    # [loop ties C15/C05] OB: an optional boolean (None / True / False, e.g. a sex call that may be
+                                 # missing): `is None`, truthiness (None is false), == / !=, `x = None`, return None, and the
+                                 # two narrowing statements of block() (`if x is None: return ..` / `if x is None: x = d`)
+         'EXC': 'bool'})         # [loop ties C15] EXC: NOT a Python value -- whether the statement guarded by a `try` raises the
+                                 # exception its handler catches (spec key `tries`, see try_stmt)
 
 
 COQ_RESERVED = {'end', 'match', 'with', 'in', 'let', 'fun', 'if', 'then', 'else', 'as', 'at', 'return', 'forall', 'exists',
@@ -136,6 +186,8 @@ class FnTranslator:
             return '(match %s with Some q_ => negb (Qeq_bool q_ 0) | None => false end)' % t
         if ty == 'OZ':
             return '(match %s with Some z_ => negb (Z.eqb z_ 0) | None => false end)' % t
+        if ty == 'OB':
+            return '(match %s with Some b_ => b_ | None => false end)' % t          # [loop ties C15/C05] None is false
         raise Refuse('truthiness of type %s' % ty)
 
     # ---- expressions
@@ -163,12 +215,32 @@ class FnTranslator:
         if isinstance(n, ast.Name):
             if n.id not in env:
                 raise Refuse('%s: unknown name %s' % (self.rel, n.id))
+            if env[n.id][1].startswith('D:'):
+                raise Refuse('%s: the dict %s is only read by `key in d` and `d[key]`' % (self.rel, n.id))
             return env[n.id]
         if isinstance(n, ast.Attribute) and isinstance(n.value, ast.Name):
             key = '%s.%s' % (n.value.id, n.attr)
             if key in env:
                 return env[key]
+            if n.value.id in ('np', 'numpy', 'math') and n.attr in ('nan', 'NaN', 'NAN'):
+                # [loop ties C15] np.nan as a value: the missing number of the optional-number reading (None), typed at its use
+                # like the constant None (`x = np.nan` makes x an optional number, is_nan_const already reads it so in `a if c else np.nan`)
+                return ('None', 'NONE')
             raise Refuse('%s: unknown attribute %s' % (self.rel, key))
+        if isinstance(n, ast.Subscript) and isinstance(n.value, ast.Name) and env.get(n.value.id, ('', ''))[1].startswith('D:'):
+            # [loop ties C15] d[k] on a dict display local with literal string keys: the value under the key equal to k;
+            # a missing key raises KeyError -- an error path outside the translation (recorded)
+            items, dty = env[n.value.id]
+            k = self.expr(n.slice, env)
+            if k[1] != 'S':
+                raise Refuse('%s: dict subscript by type %s' % (self.rel, k[1]))
+            g = '%s not in %s   (KeyError at %s)' % (ast.unparse(n.slice), n.value.id, ast.unparse(n))
+            if g not in self.guards:
+                self.guards.append(g)
+            term = items[-1][1]
+            for key, val in reversed(items[:-1]):
+                term = '(if String.eqb %s %s then %s else %s)' % (k[0], slit(key), val, term)
+            return (term, dty[2:])
         if isinstance(n, ast.Subscript):
             r = self.int_list_subscript(n, env)           # [loop ties C06] x[0], x[-1], x[1:], x[:-1], np.r_[...] on LZ
             if r is not None:
@@ -189,6 +261,11 @@ class FnTranslator:
                 if a[1] == 'Z':
                     return ('(- %s)' % a[0], 'Z')
                 return ('(Qopp %s)' % self.toQ(a), 'Q')
+            if isinstance(n.op, ast.UAdd):
+                a = self.expr(n.operand, env)       # [loop ties C15] +x on a number is x
+                if a[1] in ('Z', 'Q'):
+                    return a
+                raise Refuse('unary + on type %s' % a[1])
             if isinstance(n.op, ast.Not):
                 return ('(negb %s)' % self.truthy(self.expr(n.operand, env)), 'B')
             if isinstance(n.op, ast.Invert):
@@ -221,6 +298,11 @@ class FnTranslator:
                 return ('(%s ++ %s)%%string' % (a[0], b[0]), 'S')
             if isinstance(n.op, ast.Add) and a[1] == b[1] == 'LS':
                 return ('(%s ++ %s)%%list' % (a[0], b[0]), 'LS')
+            if isinstance(n.op, ast.Add) and a[1] == b[1] == 'LQ' and isinstance(n.right, ast.List) and getattr(n, '_from_append', False):
+                # [loop ties C05] `lst.append(e)` on a list of numbers, desugared to lst + [e]: concatenation.  ONLY for the
+                # desugared append (an object with .append is a Python list): a source-level `x + [e]` on a numpy array would
+                # be elementwise addition and is not translated
+                return ('(%s ++ %s)%%list' % (a[0], b[0]), 'LQ')
             if isinstance(n.op, (ast.BitAnd, ast.BitOr)):
                 if a[1] == 'B' and b[1] == 'B':
                     return ('(%s %s %s)' % ('andb' if isinstance(n.op, ast.BitAnd) else 'orb', a[0], b[0]), 'B')
@@ -263,13 +345,19 @@ class FnTranslator:
                 if not (isinstance(rhs, ast.Constant) and rhs.value is None):
                     raise Refuse('`is` only against None')
                 a = self.expr(n.left, env)
-                if a[1] not in ('OQ', 'OZ'):
+                if a[1] not in ('OQ', 'OZ', 'OB'):
                     # a non-optional value is never None
                     return ('false' if isinstance(op, ast.Is) else 'true', 'B')
                 t = '(match %s with Some _ => false | None => true end)' % a[0]
                 return (t if isinstance(op, ast.Is) else '(negb %s)' % t, 'B')
             if isinstance(op, (ast.In, ast.NotIn)):
                 a = self.expr(n.left, env)
+                if isinstance(rhs, ast.Name) and env.get(rhs.id, ('', ''))[1].startswith('D:'):
+                    # [loop ties C15] membership in a dict display local (see dict_local): its literal string keys
+                    if a[1] != 'S':
+                        raise Refuse('%s: `in` a dict with string keys on type %s' % (self.rel, a[1]))
+                    t = '(mem_string %s [%s])' % (a[0], '; '.join(slit(k) for k, _ in env[rhs.id][0]))
+                    return (t if isinstance(op, ast.In) else '(negb %s)' % t, 'B')
                 if not isinstance(rhs, (ast.List, ast.Tuple, ast.Set)):
                     raise Refuse('`in` only against a literal sequence')
                 items = [self.expr(e, env) for e in rhs.elts]
@@ -287,6 +375,11 @@ class FnTranslator:
                 if isinstance(op, ast.NotEq):
                     return ('(negb (String.eqb %s %s))' % (a[0], b[0]), 'B')
                 raise Refuse('string ordering')
+            if {a[1], b[1]} <= {'B', 'OB'} and 'OB' in (a[1], b[1]) and isinstance(op, (ast.Eq, ast.NotEq)):
+                # [loop ties C15/C05] == / != of optional booleans: None equals only None (Python and numpy booleans alike)
+                x, y = self.coerce(a, 'OB'), self.coerce(b, 'OB')
+                t = ('(match %s, %s with Some x_, Some y_ => Bool.eqb x_ y_ | None, None => true | _, _ => false end)' % (x, y))
+                return (t if isinstance(op, ast.Eq) else '(negb %s)' % t, 'B')
             if a[1] == 'B' and b[1] == 'B' and isinstance(op, (ast.Eq, ast.NotEq)):
                 t = '(Bool.eqb %s %s)' % (a[0], b[0])
                 return (t if isinstance(op, ast.Eq) else '(negb %s)' % t, 'B')
@@ -355,6 +448,9 @@ class FnTranslator:
             items = [self.expr(e, env) for e in n.elts]
             if all(i[1] == 'S' for i in items):
                 return ('[%s]' % '; '.join(i[0] for i in items) if items else '(@nil string)', 'LS')
+            if items and all(i[1] in ('Q', 'Z') for i in items):
+                # [loop ties C05] a list display of numbers: the list of its values (LQ)
+                return ('[%s]' % '; '.join(self.toQ(i) for i in items), 'LQ')
             raise Refuse('%s: list display of non-strings' % self.rel)
         if isinstance(n, ast.IfExp):
             c = self.cond(n.test, env)
@@ -363,6 +459,31 @@ class FnTranslator:
                 a = (self.truthy(a), 'B')          # [loop ties C07/C14] an int stored into a boolean array: nonzero is True
             a, b, ty = self.unify(a, b)
             return ('(if %s then %s else %s)' % (c, a, b), ty)
+        if isinstance(n, ast.ListComp) and getattr(self, 'columns', None):
+            # [loop ties C05] spec key `columns=[M, ...]`: the named parameters (type LQ) are 2-d arrays (rows = samples,
+            # columns = bins) read as ONE COLUMN; a vector with one entry per column is read as that column's entry.
+            #   [E for a, i in zip(M.T, v)]   entry of this column: E with a = the column of M, i = this column's entry of v
+            # (zip pairs column j of M with v[j]; v has one entry per column of M by its type)
+            if len(n.generators) != 1 or n.generators[0].ifs or n.generators[0].is_async:
+                raise Refuse('%s: list comprehension with several generators / a condition' % self.rel)
+            g = n.generators[0]
+            it = g.iter
+            if not (isinstance(g.target, ast.Tuple) and len(g.target.elts) == 2 and all(isinstance(t, ast.Name) for t in g.target.elts)
+                    and isinstance(it, ast.Call) and isinstance(it.func, ast.Name) and it.func.id == 'zip' and not it.keywords
+                    and len(it.args) == 2 and isinstance(it.args[0], ast.Attribute) and it.args[0].attr == 'T'
+                    and isinstance(it.args[0].value, ast.Name) and it.args[0].value.id in self.columns):
+                raise Refuse('%s: list comprehension other than [E for a, i in zip(M.T, v)] over a declared column matrix' % self.rel)
+            col = self.expr(it.args[0].value, env)
+            v = self.expr(it.args[1], env)
+            if col[1] != 'LQ' or v[1] not in ('Q', 'Z'):
+                raise Refuse('%s: zip(M.T, v) on types %s / %s' % (self.rel, col[1], v[1]))
+            env2 = dict(env)
+            env2[g.target.elts[0].id] = col
+            env2[g.target.elts[1].id] = v
+            e = self.expr(n.elt, env2)
+            if e[1] not in ('Q', 'Z'):
+                raise Refuse('%s: list comprehension element of type %s' % (self.rel, e[1]))
+            return e
         if isinstance(n, ast.Call):
             return self.call(n, env)
         raise Refuse('%s: unsupported expression %s' % (self.rel, type(n).__name__))
@@ -443,6 +564,52 @@ class FnTranslator:
 
     def call(self, n, env):
         f = n.func
+        try:
+            fkey = ast.unparse(f)
+        except Exception:
+            fkey = None
+        if fkey is not None and fkey in env and env[fkey][1].startswith('F:'):
+            # [loop ties C15/C05] a call of a function-typed parameter (see fn_type): positional arguments fill the positional
+            # slots in order, keyword arguments the named slots; every declared slot must be given, nothing else
+            slots, rty = fn_type(env[fkey][1])
+            pos = [ty for kw, ty in slots if kw is None]
+            kws = {kw: ty for kw, ty in slots if kw is not None}
+            if len(n.args) != len(pos) or any(isinstance(a, ast.Starred) for a in n.args) \
+                    or sorted(k.arg or '**' for k in n.keywords) != sorted(kws):
+                raise Refuse('%s: %s is called with other arguments than its declared type %s' % (self.rel, fkey, env[fkey][1]))
+            given = {k.arg: k.value for k in n.keywords}
+            vals = [self.coerce(self.expr(a, env), ty) for a, ty in zip(n.args, pos)]
+            vals += [self.coerce(self.expr(given[kw], env), ty) for kw, ty in slots if kw is not None]
+            return ('(%s %s)' % (env[fkey][0], ' '.join(vals)), rty)
+        if isinstance(f, ast.Attribute) and env.get('.' + f.attr, ('', ''))[1].startswith('F:') \
+                and not (isinstance(f.value, ast.Name) and f.value.id in ('np', 'numpy', 'math', 'pd', 'pandas')):
+            # [loop ties C15] a parameter keyed '.<m>' of function type: the method <m> of an opaque object (e.g. a table read
+            # as an id), as a PURE function of the object (first slot) and the call's arguments (the remaining slots)
+            slots, rty = fn_type(env['.' + f.attr][1])
+            pos = [ty for kw, ty in slots if kw is None]
+            kws = {kw: ty for kw, ty in slots if kw is not None}
+            if not pos or len(n.args) != len(pos) - 1 or any(isinstance(a, ast.Starred) for a in n.args) \
+                    or sorted(k.arg or '**' for k in n.keywords) != sorted(kws):
+                raise Refuse('%s: method .%s is called with other arguments than its declared type %s'
+                             % (self.rel, f.attr, env['.' + f.attr][1]))
+            given = {k.arg: k.value for k in n.keywords}
+            vals = [self.coerce(self.expr(a, env), ty) for a, ty in zip([f.value] + list(n.args), pos)]
+            vals += [self.coerce(self.expr(given[kw], env), ty) for kw, ty in slots if kw is not None]
+            return ('(%s %s)' % (env['.' + f.attr][0], ' '.join(vals)), rty)
+        if getattr(self, 'columns', None) and fkey in ('np.apply_along_axis', 'numpy.apply_along_axis') and not n.keywords \
+                and len(n.args) == 3:
+            # [loop ties C05] np.apply_along_axis(F, 0, M) on a declared column matrix M (see `columns`): entry j of the result
+            # is F(M[:, j]) -- this column's entry is F applied to the column
+            fn, ax, m = n.args
+            fk = ast.unparse(fn)
+            if not (isinstance(ax, ast.Constant) and ax.value == 0 and not isinstance(ax.value, bool)
+                    and isinstance(m, ast.Name) and m.id in self.columns and env.get(fk, ('', ''))[1] == 'F:LQ>Q'):
+                raise Refuse('%s: np.apply_along_axis other than (F, 0, M) with F : F:LQ>Q and M a declared column matrix' % self.rel)
+            return ('(%s %s)' % (env[fk][0], self.expr(m, env)[0]), 'Q')
+        if getattr(self, 'columns', None) and fkey in ('np.array', 'numpy.array', 'np.asarray', 'numpy.asarray') \
+                and not n.keywords and len(n.args) == 1 and isinstance(n.args[0], ast.ListComp):
+            # [loop ties C05] np.array([... per column ...]): the vector of the per-column entries, read as this column's entry
+            return self.expr(n.args[0], env)
         if isinstance(f, ast.Name) and f.id == 'yield_extend__' and not n.keywords:
             x = self.expr(n.args[0], env)
             if x[1] != 'Y':
@@ -732,8 +899,10 @@ class FnTranslator:
             return a[0]
         if ty == 'Q' and a[1] == 'Z':
             return self.toQ(a)
-        if a[1] == 'NONE' and ty in ('OQ', 'OZ'):
+        if a[1] == 'NONE' and ty in ('OQ', 'OZ', 'OB'):
             return 'None'
+        if ty == 'OB' and a[1] == 'B':
+            return '(Some %s)' % a[0]                  # [loop ties C15/C05]
         if ty == 'OQ' and a[1] in ('Q', 'Z'):
             return '(Some %s)' % self.toQ(a)
         if ty == 'OZ' and a[1] == 'Z':
@@ -791,6 +960,24 @@ class FnTranslator:
         for s in stmts:
             if isinstance(s, ast.If):
                 s = ast.If(test=s.test, body=self.desugar(s.body), orelse=self.desugar(s.orelse))
+                if not s.body and s.orelse:
+                    # [loop ties C05] the then-side held only log lines: `if c: <nothing> else: B` is `if not c: B` (an if
+                    # without a body is not a Python statement; tools/fn_selftest.py prints and re-parses the region)
+                    s = ast.If(test=ast.UnaryOp(op=ast.Not(), operand=s.test), body=s.orelse, orelse=[])
+                if not s.body and not s.orelse:
+                    # [loop ties C15] an `if` that held nothing but log lines (`if verbose: logging.info(...)`): it has no
+                    # effect when its test has none -- names, attributes, constants, not / and / or, comparisons,
+                    # `x.any()` / `x.all()` / `len(x)`; any other test is refused
+                    for x in ast.walk(s.test):
+                        ok = isinstance(x, (ast.Name, ast.Attribute, ast.Constant, ast.BoolOp, ast.UnaryOp, ast.Compare,
+                                            ast.boolop, ast.unaryop, ast.cmpop, ast.expr_context)) or (
+                            isinstance(x, ast.Call) and not x.keywords and (
+                                (isinstance(x.func, ast.Attribute) and x.func.attr in ('any', 'all') and not x.args)
+                                or (isinstance(x.func, ast.Name) and x.func.id == 'len' and len(x.args) == 1)))
+                        if not ok:
+                            raise Refuse('%s: an if that holds only log lines, with a test that may have effects: %s'
+                                         % (self.rel, ast.unparse(s.test)))
+                    continue
                 out.append(s)
                 continue
             if isinstance(s, ast.Expr) and isinstance(s.value, ast.Call) and ast.unparse(s.value.func).startswith('logging.'):
@@ -819,8 +1006,9 @@ class FnTranslator:
                 # x.extend(l) -> x = x + l ;  x.append(e) -> x = x + [e]   (lists are values in the translation)
                 x = s.value.func.value.id
                 arg = s.value.args[0] if s.value.func.attr == 'extend' else ast.List(elts=[s.value.args[0]], ctx=ast.Load())
-                out.append(ast.Assign(targets=[ast.Name(id=x, ctx=ast.Store())],
-                                      value=ast.BinOp(left=ast.Name(id=x, ctx=ast.Load()), op=ast.Add(), right=arg)))
+                cat = ast.BinOp(left=ast.Name(id=x, ctx=ast.Load()), op=ast.Add(), right=arg)
+                cat._from_append = s.value.func.attr == 'append'       # [loop ties C05] see the LQ concatenation in expr()
+                out.append(ast.Assign(targets=[ast.Name(id=x, ctx=ast.Store())], value=cat))
                 continue
             if isinstance(s, ast.Assert):
                 # `assert c` -- the failing path is outside the translated function (recorded like a raise guard)
@@ -834,6 +1022,19 @@ class FnTranslator:
                     raise Refuse('%s: bare yield' % self.rel)
                 call = ast.Call(func=ast.Name(id='yield_append__', ctx=ast.Load()), args=[s.value.value], keywords=[])
                 out.append(ast.Assign(targets=[ast.Name(id='yield__', ctx=ast.Store())], value=call))
+                continue
+            if isinstance(s, ast.Assign) and len(s.targets) == 1 and isinstance(s.targets[0], ast.Tuple) \
+                    and isinstance(s.value, ast.IfExp) and isinstance(s.value.body, ast.Tuple) and isinstance(s.value.orelse, ast.Tuple) \
+                    and len(s.value.body.elts) == len(s.value.orelse.elts) == len(s.targets[0].elts) \
+                    and all(isinstance(t, ast.Name) for t in s.targets[0].elts):
+                # [loop ties C15] a, b = (x1, y1) if c else (x2, y2): componentwise -- a, b = (x1 if c else x2), (y1 if c else y2)
+                # (every translated expression is pure, so evaluating c once per component changes nothing)
+                tup = ast.Tuple(elts=[ast.IfExp(test=s.value.test, body=x, orelse=y)
+                                      for x, y in zip(s.value.body.elts, s.value.orelse.elts)], ctx=ast.Load())
+                s2 = ast.Assign(targets=s.targets, value=tup)
+                s2.lineno, s2.col_offset = 0, 0
+                ast.fix_missing_locations(s2)
+                out += self.desugar([s2])
                 continue
             if isinstance(s, ast.Assign) and len(s.targets) == 1 and isinstance(s.targets[0], ast.Tuple) \
                     and isinstance(s.value, ast.Tuple) and len(s.value.elts) == len(s.targets[0].elts) \
@@ -961,11 +1162,45 @@ class FnTranslator:
         if isinstance(s, ast.Return):
             if s.value is None:
                 raise Refuse('bare return')
+            rf = getattr(self, 'row_filter', None)
+            if rf and ret == 'B' and isinstance(s.value, ast.Name) and s.value.id == rf:
+                return 'true'                      # [loop ties C15] spec key row_filter=<table name>: `return table` keeps every row
+            if rf and ret == 'B' and isinstance(s.value, ast.Subscript) and isinstance(s.value.value, ast.Name) \
+                    and s.value.value.id == rf:
+                # [loop ties C15] `return table[mask]` keeps exactly the rows whose mask bit is set (pandas boolean indexing)
+                m = self.expr(s.value.slice, env)
+                if m[1] != 'B':
+                    raise Refuse('%s: %s[...] by a non-mask' % (self.rel, rf))
+                return m[0]
             if not isinstance(ret, str):
                 if not isinstance(s.value, ast.Tuple) or len(s.value.elts) != len(ret):
                     raise Refuse('%s: a %d-tuple is expected as the result' % (self.rel, len(ret)))
                 return '(' + ', '.join(self.coerce(self.expr(e, env), t) for e, t in zip(s.value.elts, ret)) + ')'
             return self.coerce(self.expr(s.value, env), ret)
+        if isinstance(s, ast.Assign) and len(s.targets) == 1 and isinstance(s.targets[0], ast.Name) and isinstance(s.value, ast.Dict):
+            env2 = dict(env)
+            env2[s.targets[0].id] = self.dict_local(s.targets[0].id, s.value, env)       # [loop ties C15]
+            return self.block(rest, env2, ret)
+        if isinstance(s, ast.If) and isinstance(s.test, ast.Call) and isinstance(s.test.func, ast.Name) \
+                and s.test.func.id == 'isinstance' and len(s.test.args) == 2 and not s.test.keywords \
+                and isinstance(s.test.args[0], ast.Name) and isinstance(s.test.args[1], ast.Name) and s.test.args[1].id == 'str' \
+                and env.get(s.test.args[0].id, ('', ''))[1].startswith('S|'):
+            # [loop ties C15] `if isinstance(x, str): A else: B` on a parameter x of union type 'S|T': x is a str exactly on
+            # the inl side; each side sees x narrowed (a string / a T) and is followed by the continuation
+            name = s.test.args[0].id
+            a, b = self.new(name), self.new(name)
+            env_s, env_t = dict(env), dict(env)
+            env_s[name] = (a, 'S')
+            env_t[name] = (b, env[name][1][2:])
+            th = self.block(list(s.body) + rest, env_s, ret)
+            el = self.block(list(s.orelse) + rest, env_t, ret)
+            return '(match %s with\n   | inl %s => %s\n   | inr %s => %s end)' % (env[name][0], a, th, b, el)
+        if isinstance(s, ast.If) and len(s.orelse) == 1 and isinstance(s.orelse[0], ast.Raise) \
+                and not any(isinstance(x, ast.Raise) for y in s.body for x in ast.walk(y)):
+            # [loop ties C15] `if c: A else: raise ...` -- the error path is outside the translated function (recorded, like
+            # `if not c: raise`); A and the rest are translated
+            self.guards.append('not (%s)' % ast.unparse(s.test))
+            return self.block(list(s.body) + rest, env, ret)
         if isinstance(s, ast.Assign):
             key, vnode = self.norm_assign(s, env) if len(s.targets) == 1 else (None, None)
             if key is None:
@@ -996,6 +1231,42 @@ class FnTranslator:
         if isinstance(s, ast.AugAssign) and isinstance(s.target, ast.Name) and isinstance(s.op, (ast.Sub, ast.Add, ast.Mult)):
             binop = ast.BinOp(left=ast.Name(id=s.target.id, ctx=ast.Load()), op=s.op, right=s.value)
             return self.block([ast.Assign(targets=[ast.Name(id=s.target.id, ctx=ast.Store())], value=binop)] + rest, env, ret)
+        if isinstance(s, ast.If) and isinstance(s.test, ast.Compare) and len(s.test.ops) == 1 \
+                and isinstance(s.test.ops[0], (ast.Is, ast.IsNot)) and isinstance(s.test.comparators[0], ast.Constant) \
+                and s.test.comparators[0].value is None and isinstance(s.test.left, ast.Name) \
+                and env.get(s.test.left.id, ('', ''))[1] == 'OB':
+            # [loop ties C15/C05] narrowing statements on an optional boolean x:
+            #   if x is None: x = <default>     from here on x is a plain boolean (the default, a truth value, when x was None)
+            #   if x is None: <always leaves>   the rest runs only when x is not None: there x is its content
+            #   if x is None: A else: B  /  if x is not None: A else: B   (general: the continuation is translated once per
+            #                                   side; on the not-None side x is its content)
+            name = s.test.left.id
+            inner = self.new(name)
+            if isinstance(s.test.ops[0], ast.IsNot) or s.orelse:
+                none_side, some_side = (s.orelse, s.body) if isinstance(s.test.ops[0], ast.IsNot) else (s.body, s.orelse)
+                env2 = dict(env)
+                env2[name] = (inner, 'B')
+                return '(match %s with\n   | None => %s\n   | Some %s => %s end)' % (
+                    env[name][0], self.block(list(none_side or []) + rest, env, ret), inner,
+                    self.block(list(some_side or []) + rest, env2, ret))
+            if len(s.body) == 1 and isinstance(s.body[0], ast.Assign) and self.target_key(s.body[0].targets[0]) == name:
+                d = self.expr(s.body[0].value, env)
+                if d[1] != 'B':
+                    raise Refuse('%s: default of the optional boolean %s has type %s' % (self.rel, name, d[1]))
+                nm = self.new(name)
+                env2 = dict(env)
+                env2[name] = (nm, 'B')
+                return '(let %s := (match %s with Some %s => %s | None => %s end) in\n   %s)' % (
+                    nm, env[name][0], inner, inner, d[0], self.block(rest, env2, ret))
+            if self.always_returns(s.body):
+                env2 = dict(env)
+                env2[name] = (inner, 'B')
+                return '(match %s with\n   | None => %s\n   | Some %s => %s end)' % (
+                    env[name][0], self.block(s.body, env, ret), inner, self.block(rest, env2, ret))
+            env2 = dict(env)
+            env2[name] = (inner, 'B')
+            return '(match %s with\n   | None => %s\n   | Some %s => %s end)' % (
+                env[name][0], self.block(list(s.body) + rest, env, ret), inner, self.block(rest, env2, ret))
         if isinstance(s, ast.If) and not s.orelse and len(s.body) == 1 and isinstance(s.body[0], ast.Assign) \
                 and isinstance(s.test, ast.Compare) and len(s.test.ops) == 1 and isinstance(s.test.ops[0], ast.Is) \
                 and isinstance(s.test.comparators[0], ast.Constant) and s.test.comparators[0].value is None \
@@ -1119,7 +1390,71 @@ class FnTranslator:
             return "(let '(%s) := %s in\n   %s)" % (', '.join(nms), whole, body)
         if isinstance(s, ast.For) and getattr(self, 'yield_types', None) and 'yield__' in env:
             return self.yield_only_for(s, rest, env, ret)          # [loop ties C06]
+        if isinstance(s, ast.Try):
+            return self.try_stmt(s, rest, env, ret)                # [loop ties C15]
         raise Refuse('%s: unsupported statement %s' % (self.rel, type(s).__name__))
+
+    def dict_local(self, name, d, env):
+        """[loop ties C15] `name = {"k1": v1, ..., "kn": vn}`: a dict display with distinct literal string keys and values of one
+        type, bound to a local that is never stored into, re-bound or handed on: in the whole function the name occurs only
+        as this assignment's target, as the right side of `in` / `not in`, as the subscripted value of a load `name[key]`,
+        or inside a `raise` statement (an error path).  It is then a constant table: (list of (key, value term), 'D:'+type)."""
+        keys = []
+        for k in d.keys:
+            if not (isinstance(k, ast.Constant) and isinstance(k.value, str)) or k.value in keys:
+                raise Refuse('%s: dict display %s with a key that is not a distinct string literal' % (self.rel, name))
+            keys.append(k.value)
+        if not keys:
+            raise Refuse('%s: empty dict display %s' % (self.rel, name))
+        vals = [self.expr(v, env) for v in d.values]
+        if len({v[1] for v in vals}) != 1 or vals[0][1].startswith('D:'):
+            raise Refuse('%s: dict display %s with values of types %s' % (self.rel, name, sorted({v[1] for v in vals})))
+        fnode = getattr(self, 'cur_fnode', None)
+        if fnode is None:
+            raise Refuse('%s: dict display outside a function' % self.rel)
+        def visit(node, parent, in_raise):
+            in_raise = in_raise or isinstance(node, ast.Raise)
+            if isinstance(node, ast.Name) and node.id == name and not in_raise:
+                ok = (isinstance(node.ctx, ast.Store) and isinstance(parent, ast.Assign) and parent.value is d) \
+                    or (isinstance(node.ctx, ast.Load) and isinstance(parent, ast.Compare) and len(parent.ops) == 1
+                        and isinstance(parent.ops[0], (ast.In, ast.NotIn)) and parent.comparators[0] is node) \
+                    or (isinstance(node.ctx, ast.Load) and isinstance(parent, ast.Subscript) and parent.value is node
+                        and isinstance(parent.ctx, ast.Load)) \
+                    or (isinstance(node.ctx, ast.Load) and isinstance(parent, ast.Return) and parent.value is node)
+                if not ok:
+                    raise Refuse('%s: the dict %s is used other than by `in` / `[key]` (it could be changed)' % (self.rel, name))
+            for ch in ast.iter_child_nodes(node):
+                visit(ch, node, in_raise)
+        visit(fnode, None, False)
+        return ([(k, v[0]) for k, v in zip(keys, vals)], 'D:' + vals[0][1])
+
+    def try_stmt(self, s, rest, env, ret):
+        """[loop ties C15] spec key `tries=[dict(first=<prefix of the guarded statement>, raises='ValueError', param=<name>)]`:
+            try: <ONE assignment whose value is a call>   except <E>: H   [else: L]        (no finally, no `as` name)
+        Whether the guarded call raises an exception the handler catches is an input of type EXC (the call is opaque).
+        Python: the call raises before anything is bound, H runs, the else clause is skipped; otherwise the statement
+        binds its targets, L runs.  So  try..; rest  =  if raised then [H; rest] else [stmt; L; rest].
+        An exception of another type leaves the function: an error path outside the translation (recorded)."""
+        decl = [t for t in (getattr(self, 'tries', None) or []) if len(s.body) == 1 and ast.unparse(s.body[0]).startswith(t['first'])]
+        if len(decl) != 1:
+            raise Refuse('%s: try statement that the spec does not declare (key `tries`)' % self.rel)
+        d = decl[0]
+        if s.finalbody or len(s.handlers) != 1 or s.handlers[0].name is not None or s.handlers[0].type is None:
+            raise Refuse('%s: try statement with finally / several handlers / a bare except / `as` name' % self.rel)
+        if ast.unparse(s.handlers[0].type) != d['raises']:
+            raise Refuse('%s: the handler catches %s, the spec declares %s' % (self.rel, ast.unparse(s.handlers[0].type), d['raises']))
+        st = s.body[0]
+        if not (isinstance(st, ast.Assign) and isinstance(st.value, ast.Call)):
+            raise Refuse('%s: the guarded statement is not one assignment from a call' % self.rel)
+        flag = env.get(d['param'], ('', ''))
+        if flag[1] != 'EXC':
+            raise Refuse('%s: %s is not a parameter of type EXC' % (self.rel, d['param']))
+        g = '%s raises something other than %s' % (ast.unparse(st.value), d['raises'])
+        if g not in self.guards:
+            self.guards.append(g)
+        then = self.block(self.desugar(list(s.handlers[0].body)) + rest, env, ret)
+        els = self.block(self.desugar([st] + list(s.orelse)) + rest, env, ret)
+        return '(if %s then %s\n   else %s)' % (flag[0], then, els)
 
     def yield_only_for(self, s, rest, env, ret):
         """[loop ties C06] an inner `for a, b in zip(X, Y):` / `for a in X:` over integer lists (LZ) whose body does nothing
@@ -1202,7 +1537,9 @@ class FnTranslator:
                 ity = self.expr(st[0].slice, env)[1]
             except Refuse:
                 ity = None
-            if ity == 'Z':
+            if ity in ('Z', 'S'):
+                # ('S': [loop ties C05] d[key] = v on a dict with a string key -- a store to the one entry d[key], a variable
+                #  named by the source text of the target, exactly like the integer-indexed array element)
                 for node in (st[1],):
                     ast.fix_missing_locations(ast.Expression(body=node))
                 return ast.unparse(st[0]), st[1]
@@ -1297,7 +1634,7 @@ class FnTranslator:
         if v[1] != 'NONE':
             return v
         prev = env.get(key, ('', ''))[1]
-        oty = {'OZ': 'OZ', 'OQ': 'OQ', 'Z': 'OZ', 'Q': 'OQ'}.get(prev)
+        oty = {'OZ': 'OZ', 'OQ': 'OQ', 'Z': 'OZ', 'Q': 'OQ', 'B': 'OB', 'OB': 'OB'}.get(prev)
         if oty is None:
             raise Refuse('%s: %s = None where %s is not a number or an optional number' % (self.rel, key, key))
         return ('None', oty)
@@ -1350,6 +1687,7 @@ class FnTranslator:
 
     # ---- one function
     def function(self, fnode, sp):
+        self.cur_fnode = fnode                     # [loop ties C15] for dict_local's whole-function check
         args = fnode.args
         if args.vararg or args.kwarg or args.kwonlyargs or args.posonlyargs:
             raise Refuse('%s.%s: unsupported parameter kinds' % (self.rel, sp['name']))
@@ -1398,6 +1736,9 @@ class FnTranslator:
         self.slice_views = sp.get('slice_views')           # [loop ties C16] see yield_append__ in call()
         self.element = sp.get('element')             # [loop ties C07/C14] dict(index=<param key>, length=<param key>)
         self.attr_store_ok = tuple(sp.get('attr_stores', ()))
+        self.tries = sp.get('tries')                 # [loop ties C15] see try_stmt
+        self.row_filter = sp.get('row_filter')       # [loop ties C15] see block(), Return
+        self.columns = sp.get('columns')             # [loop ties C05] see expr(), ListComp / np.apply_along_axis
         for nm in self.attr_store_ok:
             for x in ast.walk(fnode):
                 if isinstance(x, ast.Assign) and isinstance(x.value, ast.Name) and (
@@ -1463,6 +1804,17 @@ class FnTranslator:
             stmts = stmts + [end]
             rty = [t for _, t in self.loop_carried] + (['B'] if self.loop_has_break else [])
             sp = dict(sp, ret=(rty if len(rty) > 1 else rty[0]))
+        if sp.get('opaque') and not loop:
+            # [loop ties C15] `opaque=` ranges in a whole function / a fragment (as in a loop iteration: the range is replaced by
+            # its declared effect); what counts as "used outside the range" includes the fragment's `returns` expressions
+            self.opaque_extra = ' '.join(sp.get('returns') or [])
+            whole = ast.unparse(ast.Module(body=list(stmts), type_ignores=[]))
+            for oq in sp['opaque']:
+                nb = self.replace_opaque(stmts, oq, whole)
+                if nb is stmts:
+                    raise Refuse('%s.%s: opaque range %r .. %r not found' % (self.rel, sp['name'], oq['first'], oq['last']))
+                stmts = nb
+            self.opaque_extra = ''
         rets = sp.get('returns')
         if rets:
             tup = ast.Tuple(elts=[ast.parse(r, mode='eval').body for r in rets], ctx=ast.Load()) if len(rets) > 1 \
@@ -1493,7 +1845,7 @@ class FnTranslator:
                         if outside is None:
                             # the range sits in a nested block: compare line by line
                             outside = '\n'.join(l for l in whole.split('\n') if l.strip() not in {x.strip() for x in rtext.split('\n')})
-                        outside += ' ' + ' '.join(c for c, _ in (self.loop_carried or []))
+                        outside += ' ' + ' '.join(c for c, _ in (self.loop_carried or [])) + ' ' + getattr(self, 'opaque_extra', '')
                         declared = {nm for nm, _ in oq.get('assigns', [])}
                         import re as _re
                         for x in ast.walk(mod):
